@@ -673,7 +673,7 @@ func (sr *schemaRepo) collectShardInfo(ctx context.Context, table any, shardID u
 }
 
 func (sr *schemaRepo) collectSidxInfo(ctx context.Context, tst *tsTable) *databasev1.SIDXInfo {
-	sidxMap := tst.sidxMap
+	sidxMap := tst.getAllSidx()
 	if len(sidxMap) == 0 {
 		return &databasev1.SIDXInfo{
 			DataCount:     0,
